@@ -61,3 +61,18 @@ C("c01-user-drop", "C01", UH, "        return super().verify(secret, hash, user=
 C("c01-mssql-upper", "C01", "passlib/handlers/mssql.py", "        result = _raw_mssql(secret.upper(), self.salt)\n        return consteq(result, chk[20:])", "        result = chk[20:]\n        return consteq(result, chk[20:])", "C01.c")
 C("c01-revert-F1", "C01", SC, "        return self._info_cls(\n            rounds=self._rounds,", "        return SHA256CryptInfo(\n            rounds=self._rounds,", "C01.a", "revert of fix d13c2f8")
 C("c01-revert-F1b", "C01", SC, "        return self._info_cls(\n            rounds=self._rounds,", "        return SHA256CryptInfo(\n            rounds=self._rounds,", "C01.b", "revert of fix d13c2f8")
+
+# ---- C05
+C("c05-revert-F5", "C05", UH, '        if isinstance(secret, str):\n            # NOTE: truncate_size is measured in bytes, not characters\n            secret = secret.encode("utf-8")\n', "", "C05.a", "revert of the F5 fix")
+C("c05-crypt16-order", "C05", "passlib/handlers/des_crypt.py", '        if isinstance(secret, str):\n            secret = secret.encode("utf-8")\n\n        # check for truncation (during .hash() calls only)\n        if self.use_defaults:\n            self._check_truncate_policy(secret)\n\n        # parse salt value', '        # check for truncation (during .hash() calls only)\n        if self.use_defaults:\n            self._check_truncate_policy(secret)\n        if isinstance(secret, str):\n            secret = secret.encode("utf-8")\n\n        # parse salt value', "C05", "placeholder")
+CONTROLS.pop()
+C("c05-validate-drop", "C05", UH, "        # NOTE: at this point, 'kwds' should just contain context_kwds subset\n        validate_secret(secret)\n", "        # NOTE: at this point, 'kwds' should just contain context_kwds subset\n", "C05.b")
+C("c05-validate-verify", "C05", "passlib/handlers/mssql.py", "        # XXX: add 'full' just to verify both checksums?\n        uh.validate_secret(secret)\n", "        # XXX: add 'full' just to verify both checksums?\n", "C05.b")
+C("c05-validate-branch", "C05", "passlib/handlers/misc.py", "            uh.validate_secret(secret)\n            return to_native_str(config, param=\"config\")", "            return to_native_str(config, param=\"config\")", "C05.b")
+C("c05-size-ge", "C05", UH, "    if len(secret) > MAX_PASSWORD_SIZE:", "    if len(secret) >= MAX_PASSWORD_SIZE:", "C05.b")
+C("c05-nul-sha1", "C05", "passlib/handlers/sha1_crypt.py", "        if _BNULL in secret:\n            raise uh.exc.NullPasswordError(self)\n", "", "C05.c")
+C("c05-nul-bcrypt", "C05", BC, "        if _BNULL in secret:\n            raise uh.exc.NullPasswordError(cls)\n", "", "C05.c")
+C("c05-verify-raises", "C05", "passlib/handlers/des_crypt.py", "        # check for truncation (during .hash() calls only)\n        if self.use_defaults:\n            self._check_truncate_policy(secret)\n\n        return self._calc_checksum_backend(secret)", "        self._check_truncate_policy(secret)\n\n        return self._calc_checksum_backend(secret)", "C05.d")
+C("c05-limit-ge", "C05", UH, "if cls.truncate_error and len(secret) > cls.truncate_size:", "if cls.truncate_error and len(secret) >= cls.truncate_size:", "C05.d")
+C("c05-trunc-size", "C05", "passlib/handlers/des_crypt.py", "    truncate_size = 8\n", "    truncate_size = 9\n", "C05.e")
+C("c05-cisco-chars", "C05", "passlib/handlers/cisco.py", '        if isinstance(secret, str):\n            secret = secret.encode("utf-8")\n\n        #\n        # check if password too large', '        #\n        # check if password too large', "C05.a", "encode dropped before the length test")
